@@ -4,6 +4,7 @@ pub mod gen;
 pub mod guard;
 pub mod model;
 pub mod mon;
+pub mod refmath;
 pub mod refvm;
 pub mod report;
 pub mod rng;
